@@ -30,12 +30,24 @@ def weight_columns(freqs, targets, b):
     return [[window(f, fc, b) for f in freqs] for fc in targets]
 
 
+def _prescaled(amps):
+    """(|amps| divided by a power of two so that the largest lies in [0.5, 1), that exponent). The division is exact
+    (entries below 2**-1022 of the largest apart, whose share is below every tolerance): the products w_i |A_i| of tiny
+    weights with amplitudes near 1e-300 would otherwise be subnormal and carry only a few bits."""
+    mags = [abs(a) for a in amps]
+    top = max(mags) if mags else 0.0
+    if not (0.0 < top < float('inf')):
+        return mags, 0
+    e = math.frexp(top)[1]
+    return [math.ldexp(m, -e) for m in mags], e
+
+
 def smooth(columns, amps):
     """Weighted mean of |amps| per target (columns from weight_columns)."""
-    mags = [abs(a) for a in amps]
+    mags, e = _prescaled(amps)
     out = []
     for w in columns:
-        out.append(math.fsum(wi * m for wi, m in zip(w, mags)) / math.fsum(w))
+        out.append(math.ldexp(math.fsum(wi * m for wi, m in zip(w, mags)) / math.fsum(w), e))
     return out
 
 
@@ -105,10 +117,23 @@ def window_sensitivity(f, fc, b):
 def smooth_error_bound(columns, sens_columns, amps):
     """Per target: first-order bound of |computed - exact| of the weighted mean due to the window's own rounding,
     sum_i |A_i| s_i / W + mean * sum_i s_i / W (numerator and normalisation)."""
-    mags = [abs(a) for a in amps]
+    mags, e = _prescaled(amps)
     out = []
     for w, s in zip(columns, sens_columns):
         big_w = math.fsum(w)
         mean = math.fsum(wi * m for wi, m in zip(w, mags)) / big_w
-        out.append((math.fsum(si * m for si, m in zip(s, mags)) + mean * math.fsum(s)) / big_w)
+        out.append(math.ldexp((math.fsum(si * m for si, m in zip(s, mags)) + mean * math.fsum(s)) / big_w, e))
+    return out
+
+
+def matrix_error_bound(columns, sens_columns):
+    """Per entry M[i][j] = w_ij / W_j: first-order bound of its error due to the window's own rounding,
+    (s_ij + M_ij sum_i s_ij) / W_j (row = Fourier frequency, column = target)."""
+    n = len(columns[0]) if columns else 0
+    out = [[0.0] * len(columns) for _ in range(n)]
+    for j, (w, s) in enumerate(zip(columns, sens_columns)):
+        big_w = math.fsum(w)
+        tot = math.fsum(s)
+        for i in range(n):
+            out[i][j] = (s[i] + w[i] / big_w * tot) / big_w
     return out
